@@ -17,13 +17,14 @@ import (
 
 // PropConfig is /verif/props/<id>.json.
 type PropConfig struct {
-	ID        string   `json:"id"`
-	Packages  []string `json:"packages"`  // packages to load
-	Functions []string `json:"functions"` // functions under contract (full names); must all have contracts
-	Sweep     []string `json:"sweep"`     // functions verified without a contract of their own (panic-class obligations only)
-	SweepPkgs []string `json:"sweep_packages"`
-	SweepSkip []string `json:"sweep_skip"`
-	Lemmas    []string `json:"lemmas"` // lemma names proved for this property
+	ID          string   `json:"id"`
+	Packages    []string `json:"packages"`  // packages to load
+	Functions   []string `json:"functions"` // functions under contract (full names); must all have contracts
+	Sweep       []string `json:"sweep"`     // functions verified without a contract of their own (panic-class obligations only)
+	SweepPkgs   []string `json:"sweep_packages"`
+	SweepSkip   []string `json:"sweep_skip"`
+	PrivatePkgs []string `json:"private_packages"` // packages whose `private` declarations are checked
+	Lemmas      []string `json:"lemmas"`           // lemma names proved for this property
 	// replay drivers: function full name (or obligation prefix) -> driver
 	Replay map[string]ReplayDriver `json:"replay"`
 	// bounded stand-ins: run in thorough tier (and when a function drifts)
@@ -39,6 +40,7 @@ type ReplayDriver struct {
 	Pkg  string `json:"pkg"`  // package dir relative to repo, e.g. pkg/stringSplitter
 	File string `json:"file"` // test file under /verif/replay/, injected by overlay
 	Test string `json:"test"` // test name
+	Race bool   `json:"race"` // build the test binary with the race detector
 }
 
 type BoundedCheck struct {
@@ -47,6 +49,7 @@ type BoundedCheck struct {
 	File  string `json:"file"`
 	Test  string `json:"test"`
 	Bound string `json:"bound"`
+	Race  bool   `json:"race"`
 }
 
 type KnownFinding struct {
@@ -166,6 +169,9 @@ func runCheck(args []string) int {
 	for _, tc := range cfg.Tables {
 		e.checkTable(tc)
 	}
+	for _, p := range cfg.PrivatePkgs {
+		e.checkPrivate(p)
+	}
 	e.proveIndLemmas()
 	timeout := 4000
 	if cfg.QuickMs > 0 {
@@ -207,7 +213,7 @@ func runCheck(args []string) int {
 	for _, name := range e.oblOrder {
 		ob := e.obls[name]
 		if ob.Class == "canary" {
-			if ob.status() == "unsat" {
+			if e.vacuous(ob) {
 				vacuous = append(vacuous, name)
 			}
 			continue
@@ -276,7 +282,9 @@ func runCheck(args []string) int {
 	var boundedRes []map[string]interface{}
 	if true { // bounded stand-ins are cheap: they run in both tiers (labelled bounded, never counted as proved)
 		for _, b := range cfg.Bounded {
+			raceFlag = b.Race
 			ok, out := runGoTest(b.Pkg, b.File, b.Test, "", seed, 600)
+			raceFlag = false
 			boundedRes = append(boundedRes, map[string]interface{}{"name": b.Name, "bound": b.Bound, "passed": ok, "label": "bounded"})
 			if !ok {
 				p := filepath.Join(replayDir, "bounded_"+safeName.ReplaceAllString(b.Name, "_")+".txt")
@@ -334,6 +342,7 @@ func runCheck(args []string) int {
 		"pointer receivers and the Go type invariants of parameters (0<=len<=cap, integer ranges) hold at entry",
 		"integers are exact 64-bit wrap-around; float64 is treated as mathematical reals (no rounding, NaN, Inf)",
 		"interior pointers (*int into a struct field) do not alias separately allocated cells")
+	assumptions = append(assumptions, e.assumptions...)
 	for _, x := range ext {
 		assumptions = append(assumptions, "extern contract assumed: "+x)
 	}
@@ -464,7 +473,9 @@ func (e *Engine) replay(cfg *PropConfig, ob *Obligation, dir string) (string, bo
 		write()
 		return path, false
 	}
-	ok, text := runGoTest(drv.Pkg, drv.File, drv.Test, path, 1, 120)
+	raceFlag = drv.Race
+	ok, text := runGoTest(drv.Pkg, drv.File, drv.Test, path, 1, 240)
+	raceFlag = false
 	_ = ok
 	rec["replay_output"] = tail(text, 4000)
 	repro := strings.Contains(text, "REPRODUCED")
@@ -488,6 +499,8 @@ func tail(s string, n int) string {
 	return s
 }
 
+var raceFlag bool
+
 // runGoTest runs an in-package test injected through -overlay against the repository.
 func runGoTest(pkg, file, test, replayFile string, seed int, timeoutS int) (bool, string) {
 	// all driver files of the same replay directory are injected together (they share helpers)
@@ -505,7 +518,12 @@ func runGoTest(pkg, file, test, replayFile string, seed int, timeoutS int) (bool
 	buf, _ := json.Marshal(ov)
 	tmp.Write(buf)
 	tmp.Close()
-	cmd := exec.Command("go", "test", "-overlay", tmp.Name(), "-vet=off", "-count=1", "-timeout", fmt.Sprintf("%ds", timeoutS), "-run", "^"+test+"$", "-v", "./"+pkg)
+	argv := []string{"test", "-overlay", tmp.Name(), "-vet=off", "-count=1", "-timeout", fmt.Sprintf("%ds", timeoutS), "-run", "^" + test + "$", "-v"}
+	if raceFlag {
+		argv = append(argv, "-race")
+	}
+	argv = append(argv, "./"+pkg)
+	cmd := exec.Command("go", argv...)
 	cmd.Dir = repoDir()
 	cmd.Env = append(os.Environ(), "GOFLAGS=-mod=mod", "GOPROXY=off", "GOSUMDB=off", "GOTOOLCHAIN=local",
 		"VERIF_REPLAY_FILE="+replayFile, fmt.Sprintf("VERIF_SEED=%d", seed))
